@@ -6,6 +6,7 @@ import glob, json, os, subprocess
 
 def setup(k):
     k.build_vh()
+    k.build_cli()
     bad = 0
     for tla in sorted(glob.glob(os.path.join(k.SPEC, "*.tla"))):
         rc, out, _ = k.run(["tla-sany", os.path.basename(tla)], 120, cwd=k.SPEC)
@@ -459,7 +460,30 @@ def c19(k, ctx):
                        "patterns fit the codeword length and contain a TRUE (an all-false or non-fitting pattern has no valid buffer length)"]
 
 
-PIPELINES = {"C19": c19, "C07": c07, "C06": c06, "C16": c16, "C13": c13, "C12": c12, "C14": c14, "C15": c15, "C18": c18, "C03": c03, "C04": c04, "C05": c05, "C01": c01, "C10": c10, "C08": c08, "C11": c11, "C02": c02, "C09": c09, "C17": c17}
+def c20(k, ctx):
+    ctx.rule = ("one case = one run of the binary built from the working tree: dvbs2 over 16 rate strings x 2 frame sizes (all 21 valid combinations + invalid ones), ccsds over 6 rates x 6 block sizes, "
+                "ccsds-c2, the three documented --girth runs, peg / mackay-neal (uniform, min-girth, --search) against Config::run(seed), systematic on full-rank / deficient / square / malformed / missing "
+                "files, encode with 0-3 words, trailing partial words, with/without puncturing and non-fitting patterns, ber at -4..-2 dB with/without the outer code and 8PSK; "
+                "non-trivial = distinct argument vectors")
+    ctx.tlc_mc("MC_Cli")
+    cli = k.build_cli()
+    ctx.vh("gen", "i2s", timeout=3000, env={"VH_CLI": cli})
+    recs, rej = ctx.validate("Trace_C20", timeout=3000)
+    ctx.require_events("Gen", "Construct", "Sys", "Encode", "Ber")
+    for r in recs:
+        ctx.nontrivial_keys.add(k.key(r["argv"]))
+        r.pop("lib", None)
+    ctx.extra["runs_by_subcommand"] = {}
+    for r in recs:
+        sub = r["argv"][0]
+        ctx.extra["runs_by_subcommand"][sub] = ctx.extra["runs_by_subcommand"].get(sub, 0) + 1
+    ctx.extra["nonzero_exits"] = sum(1 for r in recs if r["status"] != 0)
+    ctx.samples = [k.sample_case(recs, 4), k.sample_case(recs, recs[-1]["i"])]
+    ctx.assumptions = ["TLC 1.8 + Json/IOUtils", "stdout is compared through the canonical alist of the matrix it parses to (SHA-256 by the harness); library-side digests are computed in-process from Code::h()",
+                       "references for encode come from the public Encoder / Puncturer (C02, C15)", "8PSK is selected with the clap value PSK8"]
+
+
+PIPELINES = {"C20": c20, "C19": c19, "C07": c07, "C06": c06, "C16": c16, "C13": c13, "C12": c12, "C14": c14, "C15": c15, "C18": c18, "C03": c03, "C04": c04, "C05": c05, "C01": c01, "C10": c10, "C08": c08, "C11": c11, "C02": c02, "C09": c09, "C17": c17}
 NOT_YET = {}
 
 
